@@ -199,6 +199,10 @@ func (x *fnExec) execInstr(st *State, in ssa.Instruction) bool {
 		v.decls.add("fun:CH_cap", "(declare-fun CH_cap (Int) Int)")
 		st.assume(eq("(CH_cap "+r+")", sz.S))
 		st.vals[i] = mkTerm(r, sInt, i.Type())
+		if !chanEscapes(x.fn, i.Type()) {
+			st.localChans = append(st.localChans, r)
+			x.v.note("%s: channel of type %s made here does not escape: a receive that reports 'closed' while neither this function nor its go-routines closed it would block forever (partial correctness)", x.fnName(), i.Type())
+		}
 		for _, mc := range x.c.AtMakeChan {
 			c := x.ctx(st)
 			c.vars["$ch"] = st.vals[i]
@@ -655,6 +659,14 @@ func (x *fnExec) chanRecv(st *State, ch Term, cht types.Type) (Term, Term) {
 	st.heapSet(v, "CH_recvn", arrSort(sInt, sInt), store(recvn, ch.S, "(ite "+okS+" (+ "+rc+" 1) "+rc+")"))
 	reca := st.heapGet(v, "CH_recva", arrSort(sInt, sInt))
 	st.heapSet(v, "CH_recva", arrSort(sInt, sInt), store(reca, ch.S, "(+ "+sel(reca, ch.S)+" 1)"))
+	// a local, non-escaping channel is closed only by this function or the go-routines it starts (whose contracts say so):
+	// a receive that does not deliver a value while the channel is open blocks forever
+	if len(st.localChans) > 0 {
+		closed := st.heapGet(v, "CH_closed", arrSort(sInt, sBool))
+		for _, lc := range st.localChans {
+			st.assume(implies(and(eq(ch.S, lc), not(okS)), sel(closed, lc)))
+		}
+	}
 	// channel invariants of the element type hold for every value actually received (rely)
 	for _, ci := range x.chanInvsFor(ct.Elem()) {
 		c := x.ctx(st)
@@ -949,4 +961,68 @@ func (x *fnExec) chanInvSend(st *State, in ssa.Instruction, ch Term, val Term, c
 		}
 		x.emit(st, fmt.Sprintf("chaninv.%s#%d", ci.Label, x.siteOrd[in]), "chaninv", ci.Label, props, t.S, "value sent must satisfy: "+ci.Src)
 	}
+}
+
+// chanEscapes: may a channel of type t made in fn become reachable for code other than fn, its closures and the
+// go-routines started from them? (conservative syntactic scan: stored into the heap, sent, passed to a call, returned,
+// boxed into an interface)
+func chanEscapes(fn *ssa.Function, t types.Type) bool {
+	root := fn
+	for root.Parent() != nil {
+		root = root.Parent()
+	}
+	var scan func(f *ssa.Function) bool
+	same := func(v ssa.Value) bool { return v != nil && types.Identical(v.Type(), t) }
+	scan = func(f *ssa.Function) bool {
+		for _, b := range f.Blocks {
+			for _, in := range b.Instrs {
+				switch i := in.(type) {
+				case *ssa.Store:
+					if same(i.Val) {
+						switch a := i.Addr.(type) {
+						case *ssa.Alloc, *ssa.FreeVar:
+							_ = a
+						default:
+							return true
+						}
+					}
+				case *ssa.MapUpdate:
+					if same(i.Value) || same(i.Key) {
+						return true
+					}
+				case *ssa.Send:
+					if same(i.X) {
+						return true
+					}
+				case *ssa.Return:
+					for _, r := range i.Results {
+						if same(r) {
+							return true
+						}
+					}
+				case *ssa.MakeInterface:
+					if same(i.X) {
+						return true
+					}
+				case ssa.CallInstruction:
+					c := i.Common()
+					if b, ok := c.Value.(*ssa.Builtin); ok && (b.Name() == "close" || b.Name() == "len" || b.Name() == "cap") {
+						continue
+					}
+					for _, a := range c.Args {
+						if same(a) {
+							return true
+						}
+					}
+				}
+			}
+		}
+		for _, af := range f.AnonFuncs {
+			if scan(af) {
+				return true
+			}
+		}
+		return false
+	}
+	return scan(root)
 }
